@@ -409,11 +409,10 @@ func (t *Uint64Tree) Insert(key uint64, value interface{}) {
 		child := parent.children[index]
 		child.lock()
 
-		if index == 0 {
-			if smallest := child.smallest(); key < smallest {
-				// preemptively update smallest value
-				parent.runts[0] = key
-			}
+		if index == 0 && key < parent.runts[0] {
+			// The key becomes the smallest of this subtree. Only ever lower the
+			// first runt; never raise it toward the smallest key of the child.
+			parent.runts[0] = key
 		}
 
 		// Split the internal node when required.
@@ -542,11 +541,10 @@ func (t *Uint64Tree) Update(key uint64, callback func(interface{}, bool) interfa
 		child := parent.children[index]
 		child.lock()
 
-		if index == 0 {
-			if smallest := child.smallest(); key < smallest {
-				// preemptively update smallest value
-				parent.runts[0] = key
-			}
+		if index == 0 && key < parent.runts[0] {
+			// The key becomes the smallest of this subtree. Only ever lower the
+			// first runt; never raise it toward the smallest key of the child.
+			parent.runts[0] = key
 		}
 
 		// Split the internal node when required.
